@@ -891,7 +891,7 @@ package priority
 //@     invariant [* C18] forall j :: 0 <= j && j < len($range) ==> combinations[j] == $range[j]
 //@     invariant [* C18] forall t, i :: 0 <= t && t < $i0 && pow2m1(t) <= i && i < 2 * pow2m1(t) ==> isExt(combinations[i], combinations[i - pow2m1(t)], priorities[t])
 //@     invariant [* C18] forall t :: 0 <= t && t < $i0 ==> isSingle(combinations[2 * pow2m1(t)], priorities[t])
-//@     invariant [* C18] forall i :: len($range) <= i && i < len($range) + $i ==> isExt(combinations[i], combinations[i - len($range)], priority)
+//@     invariant [* C18] forall i :: len($range) <= i && i < len($range) + $i ==> isExt(combinations[i], $range[i - len($range)], priority)
 
 // C18: a sorted (high to low) permutation of the argument in a fresh slice; the argument is untouched.
 //@ func createSortedCopy
